@@ -75,6 +75,8 @@ def every_mnemonic(sh):
         yield e1.mk("set" + cc, (M(None, 8, sh),), A("m", 8, sh, path="M-set"))
     yield e1.mk("movzx", (R("edx"), M("byte", 8, sh)), A("r,m8", 32, sh, path="RM", kw="byte"))
     yield e1.mk("movzx", (R("r10"), M("byte", 8, sh)), A("r,m8", 64, sh, path="RM", kw="byte"))
+    yield e1.mk("movzx", (R("edx"), M("word", 16, sh)), A("r,m16", 32, sh, path="RM", kw="word"))
+    yield e1.mk("movzx", (R("r10"), M("word", 16, sh)), A("r,m16", 64, sh, path="RM", kw="word"))
     for mn in isa.UNARY:
         yield e1.mk(mn, (M("dword", 32, sh),), A("m", 32, sh, path="M", kw="dword"))
         yield e1.mk(mn, (M("byte", 8, sh),), A("m", 8, sh, path="M", kw="byte"))
